@@ -723,6 +723,18 @@ def _descent_cases(rng, tier, cs):
         tol = rng.choice([1e-16, 0.5, 4.0])
         maxiter = rng.choice([0, 1, 2, 3, 4])
         x0 = _ivec(rng, n, -2, 2)
+        stale = rng.random() < 0.25
+        if stale:
+            # anisotropic bowl, first run along the flat axis (large alpha, high final value), second run lower on the
+            # steep axis: tells apart anything the line-search object might wrongly carry over between runs
+            cq = rng.choice([64.0, 100.0, 25.0])
+            Qm = np.diag([1.0, cq])
+            f = odl.solvers.QuadraticForm(odl.MatrixOperator(Qm), odl.rn(2).zero(), 0.0)
+            ot = '(OQuad %s %s %s %s)' % (C.qss(Qm.tolist()), C.qss(Qm.tolist()), C.qs([0.0, 0.0]), C.q(0.0))
+            od = {'quadratic': 'anisotropic', 'Q': Qm.tolist()}
+            sp, n = f.domain, 2
+            tau, disc, mni, est, alpha, tol, maxiter = 0.75, 0.0078125, 40, True, 1.0, 1e-16, rng.choice([1, 2])
+            x0 = [float(rng.randint(4, 12)), 0.0]
         x = sp.element(x0)
         ls = BacktrackingLineSearch(f, tau=tau, discount=disc, alpha=alpha, max_num_iter=mni, estimate_step=est)
         tr = []
@@ -734,12 +746,14 @@ def _descent_cases(rng, tier, cs):
         except ValueError:
             err = '(Some RMaxIter)'
         second = 'None'
-        if err == 'None' and rng.random() < 0.6:
+        if err == 'None' and (stale or rng.random() < 0.6):
             # reuse the SAME line-search object for a second run from another start (typically with a lower objective
             # than where the first run stopped): only self.alpha may carry over
             cands = [[float(rng.randint(-16, 16)) / 8 for _ in range(n)] for _ in range(4)]
             cands.sort(key=lambda c: float(f(sp.element(c))))
             x0b = cands[0] if rng.random() < 0.7 else cands[-1]
+            if stale:
+                x0b = [0.0, float(rng.randint(1, 8)) / 32]
             xb = sp.element(x0b)
             trb, errb = [], 'None'
             try:
@@ -1204,6 +1218,36 @@ def _linesearch_reuse_probes(rng, tier, out):
            'the search returns satisfies f(x + alpha d) <= f(x) at the projected point', None, {'objective': od})
 
 
+def _linesearch_stale_state_probes(rng, tier, out):
+    """anisotropic quadratics x^T diag(1, c) x: a first run along the flat direction leaves a LARGE alpha in the object
+    and stops at a HIGH value; a second run with the same object starts lower, on the steep axis.  Whatever the object
+    remembers, every accepted step must decrease f evaluated afresh at the point of the call."""
+    import odl
+    from odl.solvers.util.steplen import BacktrackingLineSearch
+    sp = odl.rn(2)
+    cases = [(100.0, 0.75, [10.0, 0.0], [0.0, 0.2])]
+    N = 6 if tier == 'quick' else 40
+    for _ in range(N):
+        c = rng.choice([64.0, 100.0, 400.0, 25.0])
+        cases.append((c, rng.choice([0.75, 0.5, 0.8]), [float(rng.randint(4, 12)), 0.0],
+                      [0.0, float(rng.randint(1, 8)) / 32]))
+    for c, tau, s1, s2 in cases:
+        f = odl.solvers.QuadraticForm(odl.MatrixOperator(np.diag([1.0, c])))
+        ls = BacktrackingLineSearch(f, tau=tau, discount=0.01, estimate_step=True)
+        rp = ("import odl, numpy as np\nfrom odl.solvers.util.steplen import BacktrackingLineSearch\n"
+              "sp=odl.rn(2); f=odl.solvers.QuadraticForm(odl.MatrixOperator(np.diag([1.0,%r])))\n"
+              "ls=BacktrackingLineSearch(f,tau=%r,discount=0.01,estimate_step=True)\nvals=[]\n"
+              "for x0 in (%r,%r):\n    x=sp.element(x0); run=[float(f(x))]\n"
+              "    try:\n        odl.solvers.steepest_descent(f,x,line_search=ls,maxiter=1,callback=lambda z: run.append(float(f(z))))\n"
+              "    except (ValueError, AssertionError):\n        pass\n    vals.append(run)\n"
+              "observed=vals; ok=all(b<=a for run in vals for a,b in zip(run,run[1:]))\n" % (c, tau, s1, s2))
+        env = {}
+        exec(rp, env)
+        _P(out, env['ok'], 'linesearch-object-reused-from-lower-start',
+           'BacktrackingLineSearch(estimate_step=True) reused for a second steepest_descent run that starts lower on the '
+           'steep axis of x^T diag(1,%g) x: no accepted step increases f (values %r)' % (c, env['vals']), rp)
+
+
 def _kkt_pd(L, fT, gT, x, y):
     """primal-dual optimality residual of  min f(x) + g(Lx):  dist(-L^* y, df(x)) + dist(y, dg(Lx))"""
     return fT.sub_dist(L.domain, x, -L.adjoint(y)) + gT.sub_dist(L.range, L(x), y)
@@ -1454,6 +1498,7 @@ def probes(rng, tier):
     _cgn_blowup_probe(out)
     _descent_probes(rng, tier, out)
     _linesearch_reuse_probes(rng, tier, out)
+    _linesearch_stale_state_probes(rng, tier, out)
     _nonsmooth_probes(rng, tier, out)
     return out
 
